@@ -77,6 +77,16 @@ func (vc *VC) parseType(s string, pkg *types.Package) *GType {
 	if t, ok := vc.tparams[s]; ok {
 		return &GType{Kind: "go", Go: t}
 	}
+	if strings.HasPrefix(s, "*") {
+		if t, ok := vc.tparams[strings.TrimSpace(s[1:])]; ok {
+			return &GType{Kind: "go", Go: types.NewPointer(t)}
+		}
+	}
+	if strings.HasPrefix(s, "[]") {
+		if t, ok := vc.tparams[strings.TrimSpace(s[2:])]; ok {
+			return &GType{Kind: "go", Go: types.NewSlice(t)}
+		}
+	}
 	if strings.HasPrefix(s, "gomap[") {
 		t := vc.eng.parseGoTypeExpr(s[2:], pkg)
 		if t == nil {
@@ -1098,6 +1108,43 @@ func (ctx *EvalCtx) call(e *CExpr) TV {
 			ctx.fail("at(%s, ...): no such call in this function", e.Args[0].Name)
 		}
 		return ctx.with(stt).eval(e.Args[1])
+	case "wok", "hasid":
+		// abstract views of the reflective leaves writeAllowed / HasIdentifiers (see specials.go)
+		x := arg(0)
+		return boolTV(app(vc.leafFun(name, []string{x.sort(vc)}, "Bool"), x.t))
+	case "selm":
+		fd, x := arg(0), arg(1)
+		return boolTV(app(vc.leafFun("selm", []string{"Int", x.sort(vc)}, "Bool"), fd.t, x.t))
+	case "cpnn":
+		// cpnn(src, dst): the item CopyNonNilDataFromItemToItem leaves in dst (non-nil fields of src over dst)
+		a, b := arg(0), arg(1)
+		srt := b.sort(vc)
+		return TV{t: app(vc.leafFun("cpnn", []string{srt, srt}, srt), a.t, b.t), typ: b.typ, g: b.g}
+	case "rmel":
+		// rmel(item, elements): the item RemoveElementFromItem leaves (fields named by the elements value cleared)
+		a, b := arg(0), arg(1)
+		srt := a.sort(vc)
+		return TV{t: app(vc.leafFun("rmel", []string{srt, "Iface"}, srt), a.t, b.t), typ: a.typ, g: a.g}
+	case "res2", "arg2":
+		// res2(callee, k, i) / arg2(callee, k, i): like res/arg for the k-th call site of the callee in the function
+		if len(e.Args) != 3 || e.Args[0].Kind != "ident" || e.Args[1].Kind != "int" || e.Args[2].Kind != "int" {
+			ctx.fail("%s(callee, site, index)", name)
+		}
+		tab := ctx.callRes
+		if name == "arg2" {
+			tab = ctx.callArgs
+		}
+		var idx int
+		fmt.Sscanf(e.Args[2].Name, "%d", &idx)
+		if ctx.atCallSite {
+			ctx.fail("%s() cannot be used in a clause assumed at call sites", name)
+		}
+		key := e.Args[0].Name + "#" + e.Args[1].Name
+		bs, ok := tab[key]
+		if !ok || idx >= len(bs) {
+			ctx.fail("%s(%s, %d): no such call in this function", name, key, idx)
+		}
+		return ctx.bindingTV(bs[idx])
 	case "res", "arg":
 		// res(callee, i) / arg(callee, i): i-th result / argument (receiver first) of the last call of a callee under
 		// contract in this function. Seen from a caller of the function under contract it is some unknown value.
@@ -1253,6 +1300,9 @@ func (ctx *EvalCtx) methodCall(e *CExpr) TV {
 	}
 	key := fn.FullName()
 	fc := vc.eng.db.funcs[key]
+	if fc == nil {
+		fc = vc.eng.db.funcs[stripTypeParams(key)] // method of a generic type: contract written without type parameters
+	}
 	if fc == nil || !fc.Pure {
 		ctx.fail("method %s has no pure contract", key)
 	}
